@@ -139,6 +139,17 @@ def classify(name, prefix):
   return ['step', rest]
 
 
+TREE_OK = []
+
+
+def tree_ok(r):
+  """the saved tree has the payload, an empty dict node and a nested empty node: all of them come back"""
+  try:
+    return set(r.keys()) == {'v', 'e', 'n'} and dict(r['e']) == {} and set(r['n'].keys()) == {'x'} and dict(r['n']['x']) == {}
+  except BaseException:  # pylint: disable=broad-except
+    return False
+
+
 def snapshot(d, prefix):
   out = []
   if not os.path.isdir(d):
@@ -150,6 +161,7 @@ def snapshot(d, prefix):
       try:
         r = C.restore_checkpoint(p, None)
         out.append([cls, 'dir', int(np.asarray(r['v'])[0])])
+        TREE_OK.append(tree_ok(r))
       except BaseException:  # pylint: disable=broad-except
         out.append([cls, 'dir', None])
     else:
@@ -157,6 +169,7 @@ def snapshot(d, prefix):
         with open(p, 'rb') as f:
           r = serialization.msgpack_restore(f.read())
         out.append([cls, 'file', int(np.asarray(r['v'])[0])])
+        TREE_OK.append(tree_ok(r))
       except BaseException:  # pylint: disable=broad-except
         out.append([cls, 'file', None])
   return out
@@ -195,18 +208,47 @@ def run_history(h, hid):
     fio.set_mode(mode0)
 
 
+class HeldAM(C.AsyncManager):
+  """every task waits for its own gate: the caller can overwrite its buffers between the return of save_checkpoint and the
+  start of the worker (the checkpoint must hold what was passed to save_checkpoint)"""
+
+  def __init__(self):
+    super().__init__()
+    self.current = None
+
+  def save_async(self, task):
+    import threading
+    gate = threading.Event()
+    self.current = gate
+
+    def held():
+      gate.wait(10)
+      return task()
+    return super().save_async(held)
+
+  def release(self):
+    if self.current is not None:
+      self.current.set()
+
+
 def _run_history(h, d, prefix, out):
-  am = C.AsyncManager() if h.get('async') else None
+  am = HeldAM() if h.get('async') else None
+  save = C.save_checkpoint_multiprocess if h.get('multiprocess') else C.save_checkpoint
   for sv in h['saves']:
     step = sv['step']
     step = float(step['f']) if isinstance(step, dict) else int(step)
-    target = {'v': np.array([sv['payload']], dtype=np.int64)}
+    target = {'v': np.array([sv['payload']], dtype=np.int64), 'e': {}, 'n': {'x': {}}}
+    del TREE_OK[:]
     INJ.budget, INJ.count, INJ.log = sv['crash'], 0, []
     fconfig.update('flax_use_orbax_checkpointing', bool(h['orbax']))
     res = {}
     try:
-      C.save_checkpoint(d, target, step, prefix=prefix, keep=sv['keep'], overwrite=sv['overwrite'], keep_every_n_steps=sv['every'],
-                        async_manager=am)
+      try:
+        save(d, target, step, prefix=prefix, keep=sv['keep'], overwrite=sv['overwrite'], keep_every_n_steps=sv['every'], async_manager=am)
+        target['v'][0] = 987654321          # the caller re-uses its buffer as soon as the call returns
+      finally:
+        if am:
+          am.release()
       last = sv is h['saves'][-1]
       if am and (last or not h.get('overlap')):
         am.wait_previous_save()
@@ -230,10 +272,11 @@ def _run_history(h, d, prefix, out):
         res['async_exc'] = type(e).__name__
     res['settled'] = settled
     res['snapshot'] = snapshot(d, prefix) if settled else []
+    res['trees_ok'] = all(TREE_OK)
     res['api'] = api_view(d, prefix) if settled else {'latest': None, 'steps': [], 'restore_latest': None}
     out.append(res)
     if am and res['outcome'] == 'crash':
-      am = C.AsyncManager()
+      am = HeldAM()
   _orig.get('shutil_rmtree', shutil.rmtree)(d, ignore_errors=True)
   return out
 
